@@ -25,6 +25,14 @@
 //! an optional last token `m=<len>` gives the id array a length different from `n` (malformed
 //! stream, only for the algorithms that validate lengths).
 //!
+//! A line may start with `reuse-twice` or `reuse-buf` followed by an op as above (history cases):
+//! `reuse-twice`: ONE algorithm value is called first on the element-reversed input (scratch
+//! array), then on the input; `reuse-buf`: the id array is first filled by a real run asking for
+//! more parts (two more iterations; `2*parts+3` parts; Greedy with 7 parts for Ckk), then reused
+//! for the run of the op. Both results must pass the oracle and – on a 1-thread pool, and on any
+//! pool for the sequential algorithms – equal the result of a fresh value on a fresh array
+//! (`history-dependent@<algo>` otherwise).
+//!
 //! The op above is the whole INPUT (public API only; this is what the corpus holds). The line
 //! RECORDED for the model driver is `<op> => <aux…>` for the three algorithms whose models take
 //! the result of floating-point code as a parameter; `aux` is read from the implementation
@@ -64,6 +72,21 @@ fn hang_bump(algo: &str) {
     if let Ok(mut g) = HANGS.lock() {
         *g.get_or_insert_with(HashMap::new).entry(algo.to_string()).or_insert(0) += 1;
     }
+}
+
+/// Above this many elements the model driver does not run the models (`skip large-n (oracle
+/// only)`; same constant in Driver/C01.lean) and no `=> aux` part is exported.
+const MODEL_MAX_N: usize = 21_000;
+
+/// `with_pool` of common.rs with 64 MiB worker stacks: `ckk_bipart_rec` recurses once per element,
+/// and a stack overflow of a worker would take the whole harness process down.
+fn with_big_pool<T: Send>(threads: usize, f: impl FnOnce() -> T + Send) -> T {
+    let pool = coupe::rayon::ThreadPoolBuilder::new()
+        .num_threads(threads)
+        .stack_size(64 << 20)
+        .build()
+        .expect("pool");
+    pool.install(f)
 }
 
 // ------------------------------------------------------------------ cases
@@ -170,6 +193,52 @@ impl Case {
             | Case::Kk { parts, .. }
             | Case::Random { parts, .. } => *parts,
         }
+    }
+
+    /// The same elements in reverse order (a different input of the same size).
+    fn reversed(&self) -> Case {
+        fn rev_pts(p: &[f64], dim: usize) -> Vec<f64> {
+            p.chunks(dim).rev().flat_map(|c| c.to_vec()).collect()
+        }
+        fn rev_w(w: &Wts) -> Wts {
+            match w {
+                Wts::I(v) => Wts::I(v.iter().rev().copied().collect()),
+                Wts::F(v) => Wts::F(v.iter().rev().copied().collect()),
+            }
+        }
+        let mut c = self.clone();
+        match &mut c {
+            Case::Bisect { dim, pts, w, .. } => {
+                *pts = rev_pts(pts, *dim);
+                *w = rev_w(w);
+            }
+            Case::Hilbert { dim, pts, w, .. } | Case::Mj { dim, pts, w, .. } => {
+                *pts = rev_pts(pts, *dim);
+                w.reverse();
+            }
+            Case::ZCurve { dim, pts, .. } => *pts = rev_pts(pts, *dim),
+            Case::Greedy { w, .. } | Case::Grid { w, .. } => *w = rev_w(w),
+            Case::Kk { w, .. } | Case::Ckk { w, .. } => w.reverse(),
+            Case::Random { .. } => {}
+        }
+        c
+    }
+
+    /// A run on the same elements that asks for more parts (its ids fill the array that
+    /// `reuse-buf` hands to the real run).
+    fn more_parts(&self) -> Case {
+        let mut c = self.clone();
+        match &mut c {
+            Case::Bisect { iter, .. } | Case::Grid { iter, .. } => *iter = (*iter + 2).min(40),
+            Case::Hilbert { parts, .. }
+            | Case::ZCurve { parts, .. }
+            | Case::Mj { parts, .. }
+            | Case::Greedy { parts, .. }
+            | Case::Kk { parts, .. }
+            | Case::Random { parts, .. } => *parts = *parts * 2 + 3,
+            Case::Ckk { w, .. } => return Case::Greedy { parts: 7, w: Wts::I(w.clone()) },
+        }
+        c
     }
 
     /// `<algo> <Ts> …`
@@ -509,42 +578,56 @@ fn to_ret(r: Result<(), coupe::Error>) -> Ret {
 }
 
 macro_rules! bisect {
-    ($D:literal, $ids:expr, $rib:expr, $iter:expr, $tol:expr, $pts:expr, $w:expr) => {{
+    ($D:literal, $ids:expr, $rcb:expr, $rib:expr, $is_rib:expr, $pts:expr, $w:expr) => {{
         let p = points!($D, $pts);
-        match ($rib, $w) {
-            (false, Wts::I(w)) => to_ret(
-                coupe::Rcb { iter_count: $iter, tolerance: $tol }.partition($ids, (p.par_iter().cloned(), w)),
-            ),
-            (false, Wts::F(w)) => to_ret(
-                coupe::Rcb { iter_count: $iter, tolerance: $tol }.partition($ids, (p.par_iter().cloned(), w)),
-            ),
-            (true, Wts::I(w)) => {
-                to_ret(coupe::Rib { iter_count: $iter, tolerance: $tol }.partition($ids, (&p[..], w)))
-            }
-            (true, Wts::F(w)) => {
-                to_ret(coupe::Rib { iter_count: $iter, tolerance: $tol }.partition($ids, (&p[..], w)))
-            }
+        match ($is_rib, $w) {
+            (false, Wts::I(w)) => to_ret($rcb.partition($ids, (p.par_iter().cloned(), w))),
+            (false, Wts::F(w)) => to_ret($rcb.partition($ids, (p.par_iter().cloned(), w))),
+            (true, Wts::I(w)) => to_ret($rib.partition($ids, (&p[..], w))),
+            (true, Wts::F(w)) => to_ret($rib.partition($ids, (&p[..], w))),
         }
     }};
 }
 
-/// One call of the real implementation on a fresh id array of length `m` pre-filled with
-/// `usize::MAX` (runs inside the pool / watchdog of the caller).
-fn call(case: Case, m: usize) -> (Ret, Vec<usize>) {
-    let mut ids = vec![usize::MAX; m];
+/// The real implementation on the id array `ids` (fresh ones are pre-filled with `usize::MAX`).
+/// With `twice` the SAME algorithm value is first called on the element-reversed input and a
+/// scratch array (its result is dropped; a panic there is a panic of the case). Runs inside the
+/// pool / watchdog of the caller.
+fn call(case: Case, mut ids: Vec<usize>, twice: bool) -> (Ret, Vec<usize>) {
+    let mut scratch = vec![usize::MAX; if twice { ids.len() } else { 0 }];
+    let warm = if twice { Some(case.reversed()) } else { None };
     let ret = match case {
-        Case::Bisect { rib, dim: 2, iter, tol, pts, w } => bisect!(2, &mut ids, rib, iter, tol, pts, w),
-        Case::Bisect { rib, iter, tol, pts, w, .. } => bisect!(3, &mut ids, rib, iter, tol, pts, w),
+        Case::Bisect { rib, dim, iter, tol, pts, w } => {
+            let mut rcb = coupe::Rcb { iter_count: iter, tolerance: tol };
+            let mut ribv = coupe::Rib { iter_count: iter, tolerance: tol };
+            if let Some(Case::Bisect { pts: p0, w: w0, .. }) = warm {
+                let _ = if dim == 2 {
+                    bisect!(2, &mut scratch, rcb, ribv, rib, p0, w0)
+                } else {
+                    bisect!(3, &mut scratch, rcb, ribv, rib, p0, w0)
+                };
+            }
+            if dim == 2 {
+                bisect!(2, &mut ids, rcb, ribv, rib, pts, w)
+            } else {
+                bisect!(3, &mut ids, rcb, ribv, rib, pts, w)
+            }
+        }
         Case::Hilbert { dim, parts, order, pts, w } => {
             let mut algo = coupe::HilbertCurve { part_count: parts, order };
-            let r = if dim == 2 {
-                let p = points!(2, pts);
-                algo.partition(&mut ids, (&p[..], &w[..]))
-            } else {
-                let p = points!(3, pts);
-                algo.partition(&mut ids, (&p[..], &w[..]))
+            let mut go = |pts: &[f64], w: &[f64], buf: &mut [usize]| {
+                if dim == 2 {
+                    let p = points!(2, pts);
+                    algo.partition(buf, (&p[..], w))
+                } else {
+                    let p = points!(3, pts);
+                    algo.partition(buf, (&p[..], w))
+                }
             };
-            match r {
+            if let Some(Case::Hilbert { pts: p0, w: w0, .. }) = &warm {
+                let _ = go(p0, w0, &mut scratch);
+            }
+            match go(&pts, &w, &mut ids) {
                 Ok(()) => Ret::Ok,
                 Err(coupe::HilbertCurveError::InvalidOrder { .. }) => Ret::InvalidOrder,
                 #[allow(unreachable_patterns)]
@@ -553,46 +636,89 @@ fn call(case: Case, m: usize) -> (Ret, Vec<usize>) {
         }
         Case::ZCurve { dim, parts, order, pts } => {
             let mut algo = coupe::ZCurve { part_count: parts, order };
-            if dim == 2 {
-                let p = points!(2, pts);
-                algo.partition(&mut ids, &p[..]).unwrap();
-            } else {
-                let p = points!(3, pts);
-                algo.partition(&mut ids, &p[..]).unwrap();
+            let mut go = |pts: &[f64], buf: &mut [usize]| {
+                if dim == 2 {
+                    let p = points!(2, pts);
+                    algo.partition(buf, &p[..]).unwrap();
+                } else {
+                    let p = points!(3, pts);
+                    algo.partition(buf, &p[..]).unwrap();
+                }
+            };
+            if let Some(Case::ZCurve { pts: p0, .. }) = &warm {
+                go(p0, &mut scratch);
             }
+            go(&pts, &mut ids);
             Ret::Ok
         }
         Case::Mj { dim, parts, max_iter, pts, w } => {
             let mut algo = coupe::MultiJagged { part_count: parts, max_iter };
-            if dim == 2 {
-                let p = points!(2, pts);
-                algo.partition(&mut ids, (&p[..], &w[..])).unwrap();
-            } else {
-                let p = points!(3, pts);
-                algo.partition(&mut ids, (&p[..], &w[..])).unwrap();
+            let mut go = |pts: &[f64], w: &[f64], buf: &mut [usize]| {
+                if dim == 2 {
+                    let p = points!(2, pts);
+                    algo.partition(buf, (&p[..], w)).unwrap();
+                } else {
+                    let p = points!(3, pts);
+                    algo.partition(buf, (&p[..], w)).unwrap();
+                }
+            };
+            if let Some(Case::Mj { pts: p0, w: w0, .. }) = &warm {
+                go(p0, w0, &mut scratch);
             }
+            go(&pts, &w, &mut ids);
             Ret::Ok
         }
-        Case::Greedy { parts, w } => match w {
-            Wts::I(w) => to_ret(coupe::Greedy { part_count: parts }.partition(&mut ids, w)),
-            Wts::F(w) => to_ret(coupe::Greedy { part_count: parts }.partition(&mut ids, w)),
-        },
-        Case::Kk { parts, w } => to_ret(coupe::KarmarkarKarp { part_count: parts }.partition(&mut ids, w)),
-        Case::Ckk { tol, w } => to_ret(coupe::CompleteKarmarkarKarp { tolerance: tol }.partition(&mut ids, w)),
+        Case::Greedy { parts, w } => {
+            let mut algo = coupe::Greedy { part_count: parts };
+            let mut go = |w: Wts, buf: &mut [usize]| match w {
+                Wts::I(w) => to_ret(algo.partition(buf, w)),
+                Wts::F(w) => to_ret(algo.partition(buf, w)),
+            };
+            if let Some(Case::Greedy { w: w0, .. }) = warm {
+                let _ = go(w0, &mut scratch);
+            }
+            go(w, &mut ids)
+        }
+        Case::Kk { parts, w } => {
+            let mut algo = coupe::KarmarkarKarp { part_count: parts };
+            if let Some(Case::Kk { w: w0, .. }) = warm {
+                let _ = algo.partition(&mut scratch, w0);
+            }
+            to_ret(algo.partition(&mut ids, w))
+        }
+        Case::Ckk { tol, w } => {
+            let mut algo = coupe::CompleteKarmarkarKarp { tolerance: tol };
+            if let Some(Case::Ckk { w: w0, .. }) = warm {
+                let _ = algo.partition(&mut scratch, w0);
+            }
+            to_ret(algo.partition(&mut ids, w))
+        }
         Case::Grid { dims, iter, w } => {
             let nz = |x: usize| std::num::NonZeroUsize::new(x).unwrap();
+            let w0 = match warm {
+                Some(Case::Grid { w: w0, .. }) => Some(w0),
+                _ => None,
+            };
             if dims.len() == 2 {
                 let g = coupe::Grid::new_2d(nz(dims[0]), nz(dims[1]));
-                match w {
-                    Wts::I(w) => g.rcb(&mut ids, &w[..], iter),
-                    Wts::F(w) => g.rcb(&mut ids, &w[..], iter),
+                let go = |w: Wts, buf: &mut [usize]| match w {
+                    Wts::I(w) => g.rcb(buf, &w[..], iter),
+                    Wts::F(w) => g.rcb(buf, &w[..], iter),
+                };
+                if let Some(w0) = w0 {
+                    go(w0, &mut scratch);
                 }
+                go(w, &mut ids);
             } else {
                 let g = coupe::Grid::new_3d(nz(dims[0]), nz(dims[1]), nz(dims[2]));
-                match w {
-                    Wts::I(w) => g.rcb(&mut ids, &w[..], iter),
-                    Wts::F(w) => g.rcb(&mut ids, &w[..], iter),
+                let go = |w: Wts, buf: &mut [usize]| match w {
+                    Wts::I(w) => g.rcb(buf, &w[..], iter),
+                    Wts::F(w) => g.rcb(buf, &w[..], iter),
+                };
+                if let Some(w0) = w0 {
+                    go(w0, &mut scratch);
                 }
+                go(w, &mut ids);
             }
             Ret::Ok
         }
@@ -605,6 +731,9 @@ fn call(case: Case, m: usize) -> (Ret, Vec<usize>) {
                     let problem =
                         coupe_tools::Problem::<2>::without_mesh(mesh_io::weight::Array::Integers(Vec::new()));
                     let mut runner = algo.to_runner(&problem);
+                    if twice {
+                        let _ = runner(&mut scratch);
+                    }
                     match runner(&mut ids) {
                         Ok(_) => Ret::Ok,
                         Err(e) => Ret::Other(format!("{}", e)),
@@ -623,7 +752,7 @@ fn verdict(
     t: usize,
     m: usize,
     ooc: Option<&'static str>,
-    res: Caught<(Ret, Vec<usize>)>,
+    res: &Caught<(Ret, Vec<usize>)>,
 ) -> (String, Option<(String, String)>) {
     let parts = case.parts();
     match res {
@@ -713,11 +842,31 @@ fn verdict(
     }
 }
 
+#[derive(Clone, Copy, PartialEq, Debug)]
+enum Reuse {
+    No,
+    Twice,
+    Buf,
+}
+
+/// One run under a `t`-thread pool and the watchdog.
+fn exec(case: &Case, t: usize, ids: Vec<usize>, twice: bool) -> Caught<(Ret, Vec<usize>)> {
+    let c = case.clone();
+    catch_timeout(HANG_SECS, move || with_big_pool(t, move || call(c, ids, twice)))
+}
+
 pub fn run_op(ctx: &mut Ctx, op: &str) {
     if ctx.hang_limit_reached() {
         return;
     }
-    let Some((case, ts, m)) = parse_op(op) else {
+    let (reuse, inner) = if let Some(r) = op.strip_prefix("reuse-twice ") {
+        (Reuse::Twice, r)
+    } else if let Some(r) = op.strip_prefix("reuse-buf ") {
+        (Reuse::Buf, r)
+    } else {
+        (Reuse::No, op)
+    };
+    let Some((case, ts, m)) = parse_op(inner) else {
         ctx.record(op.to_string(), "bad-op".into(), false);
         return;
     };
@@ -733,14 +882,63 @@ pub fn run_op(ctx: &mut Ctx, op: &str) {
             ctx.count("not_run_after_hangs");
             continue;
         }
-        let c = case.clone();
-        let res = catch_timeout(HANG_SECS, move || with_pool(t, move || call(c, m)));
-        if matches!(res, Caught::Hang) {
-            hang_bump(&algo);
-        }
+        let fresh = exec(&case, t, vec![usize::MAX; m], false);
         ctx.count("pool_runs");
         ctx.count(&format!("pool_size_{:02}", t));
-        let (v, f) = verdict(&case, &algo, t, m, ooc, res);
+        let (mut v, mut f) = verdict(&case, &algo, t, m, ooc, &fresh);
+        let mut hung = matches!(fresh, Caught::Hang);
+        if reuse != Reuse::No && f.is_none() && ooc.is_none() {
+            // the history run: same value twice / reused array
+            let second = match reuse {
+                Reuse::Twice => Some(exec(&case, t, vec![usize::MAX; m], true)),
+                _ => {
+                    let pre_case = case.more_parts();
+                    match exec(&pre_case, t, vec![usize::MAX; m], false) {
+                        Caught::Ok((_, buf)) => Some(exec(&case, t, buf, false)),
+                        // the filling run is another case of the stream's; it is not judged here
+                        _ => None,
+                    }
+                }
+            };
+            ctx.count("pool_runs");
+            if let Some(second) = second {
+                hung |= matches!(second, Caught::Hang);
+                let (v2, f2) = verdict(&case, &algo, t, m, ooc, &second);
+                if f2.is_some() {
+                    v = format!("{} [{:?}]", v2, reuse);
+                    f = f2.map(|(sig, what)| (sig, format!("{} [history run {:?}]", what, reuse)));
+                } else if let (Caught::Ok((r1, ids1)), Caught::Ok((r2, ids2))) = (&fresh, &second) {
+                    // same input ⇒ same output: compared where the run is deterministic (1-thread
+                    // pool; sequential algorithms on any pool; not the second draw of one rng)
+                    let sequential =
+                        matches!(case, Case::Greedy { .. } | Case::Kk { .. } | Case::Ckk { .. } | Case::Random { .. });
+                    let comparable =
+                        (t == 1 || sequential) && !(reuse == Reuse::Twice && matches!(case, Case::Random { .. }));
+                    if comparable && *r1 == Ret::Ok && *r2 == Ret::Ok {
+                        ctx.count("reuse_compared");
+                        if let Some(i) = (0..m).find(|&i| ids1[i] != ids2[i]) {
+                            v = format!("history-dependent {:?}", reuse);
+                            f = Some((
+                                format!("history-dependent@{}", algo),
+                                format!(
+                                    "element {}: id {} from a fresh value and array, id {} in the {:?} run (T={})",
+                                    i, ids1[i], ids2[i], reuse, t
+                                ),
+                            ));
+                        }
+                    } else if r1 != r2 {
+                        v = format!("history-dependent {:?}", reuse);
+                        f = Some((
+                            format!("history-dependent@{}", algo),
+                            format!("returned {:?} fresh but {:?} in the {:?} run (T={})", r1, r2, reuse, t),
+                        ));
+                    }
+                }
+            }
+        }
+        if hung {
+            hang_bump(&algo);
+        }
         verdicts.push((t, v));
         if let Some(f) = f {
             fails.push(f);
@@ -772,7 +970,10 @@ pub fn run_op(ctx: &mut Ctx, op: &str) {
     }
     let nontrivial = ooc.is_none() && n >= 2 && parts >= 2;
     let mut line = public_part(op).to_string();
-    if ooc.is_none() && n > 0 {
+    if reuse != Reuse::No {
+        ctx.count("reuse");
+    }
+    if ooc.is_none() && n > 0 && n <= MODEL_MAX_N {
         let needs = matches!(case, Case::Bisect { rib: true, .. } | Case::Hilbert { .. } | Case::ZCurve { .. });
         if needs {
             match aux_for(&case) {
@@ -952,6 +1153,11 @@ fn emit(ctx: &mut Ctx, case: &Case, ts: &[usize]) {
 
 /// Every algorithm on one geometric / weight input.
 fn one_random_case(ctx: &mut Ctx, which: usize, n: usize, large: bool, ts: &[usize]) {
+    let case = random_case(ctx, which, n, large);
+    emit(ctx, &case, ts);
+}
+
+fn random_case(ctx: &mut Ctx, which: usize, n: usize, large: bool) -> Case {
     let pm = *ctx.rng.pick(&POINT_MODES);
     let wm = *ctx.rng.pick(&WEIGHT_MODES);
     let dim = 2 + ctx.rng.usize(2);
@@ -1061,7 +1267,293 @@ fn one_random_case(ctx: &mut Ctx, which: usize, n: usize, large: bool, ts: &[usi
             Case::Random { parts, n, seed: ctx.rng.below(1 << 40) }
         }
     };
-    emit(ctx, &case, ts);
+    case
+}
+
+// ------------------------------------------------------------------ large / corner / reuse streams
+
+/// part counts around the word size and the byte range
+const PARTS_CORNERS: [usize; 7] = [63, 64, 65, 128, 255, 256, 257];
+const LARGE_POINT_MODES: [&str; 6] = ["uniform", "lattice", "clustered", "sorted", "sorted-blocks-4096", "sorted-blocks-8192"];
+
+/// Points for the large stream. Besides random order: coordinate 0 ascending over the whole input
+/// (`sorted`), or ascending inside blocks of 4096 / 8192 consecutive points with the blocks
+/// themselves in descending order (`sorted-blocks-*`) – what a per-block reduction, a sortedness
+/// shortcut or a seam between blocks would trip over.
+fn gen_points_large(rng: &mut Rng, dim: usize, n: usize, mode: &str) -> Vec<f64> {
+    let block = match mode {
+        "sorted" => n.max(1),
+        "sorted-blocks-4096" => 4096,
+        "sorted-blocks-8192" => 8192,
+        _ => return gen_points(rng, dim, n, mode),
+    };
+    let nblocks = (n + block - 1) / block.max(1);
+    let mut v = Vec::with_capacity(n * dim);
+    for i in 0..n {
+        let b = i / block;
+        v.push(((nblocks - 1 - b) * block + i % block) as f64 * 0.5);
+        for c in 1..dim {
+            v.push(if c == 1 { frac(rng, -100, 100) } else { (i % 7) as f64 });
+        }
+    }
+    v
+}
+
+fn large_parts(ctx: &mut Ctx, thousands: bool) -> usize {
+    match ctx.rng.usize(4) {
+        0 | 1 => *ctx.rng.pick(&PARTS_CORNERS),
+        2 => 2 + ctx.rng.usize(63),
+        _ => {
+            if thousands {
+                1000 + ctx.rng.usize(4000)
+            } else {
+                *ctx.rng.pick(&PARTS_CORNERS)
+            }
+        }
+    }
+}
+
+fn size_class(n: usize) -> &'static str {
+    match n {
+        x if x >= 131_072 => "large:n>=131072",
+        x if x >= 65_536 => "large:n>=65536",
+        x if x >= 16_384 => "large:n>=16384",
+        x if x >= 8_192 => "large:n>=8192",
+        _ => "large:n>=4096",
+    }
+}
+
+/// One large case of kind `which` (the ten kinds of `random_case`) on about `n` elements.
+fn large_case(ctx: &mut Ctx, which: usize, n: usize, pm: &str) -> Case {
+    let dim = 2 + ctx.rng.usize(2);
+    let wm = *ctx.rng.pick(&WEIGHT_MODES);
+    ctx.count(&format!("large:points_{}", pm));
+    match which {
+        0 | 1 => {
+            let pts = gen_points_large(&mut ctx.rng, dim, n, pm);
+            let w = gen_weights(&mut ctx.rng, n, wm);
+            let w = wts(&mut ctx.rng, w);
+            Case::Bisect { rib: which == 1, dim, iter: 3 + ctx.rng.usize(6), tol: *ctx.rng.pick(&TOLS), pts, w }
+        }
+        2 => {
+            let pts = gen_points_large(&mut ctx.rng, dim, n, pm);
+            let w = gen_weights(&mut ctx.rng, n, wm);
+            let order = if dim == 2 { 8 + ctx.rng.usize(25) } else { 6 + ctx.rng.usize(16) } as u32;
+            // the settle loop of weighted_quantiles is quadratic in the part count
+            let parts = large_parts(ctx, n <= 20_001);
+            Case::Hilbert { dim, parts, order, pts, w: as_f(&w) }
+        }
+        3 => {
+            let pts = gen_points_large(&mut ctx.rng, dim, n, pm);
+            // z_curve_partition_recurse recomputes the region of every point of the input in every
+            // call (quadratic for well-spread points): a shallow order bounds the number of calls
+            let order = 1 + ctx.rng.usize(if dim == 2 { 5 } else { 4 }) as u32;
+            let parts = large_parts(ctx, true);
+            Case::ZCurve { dim, parts, order, pts }
+        }
+        4 => {
+            let pts = gen_points_large(&mut ctx.rng, dim, n, pm);
+            let w = gen_weights(&mut ctx.rng, n, wm);
+            let parts = large_parts(ctx, true);
+            Case::Mj { dim, parts, max_iter: 1 + ctx.rng.usize(4), pts, w: as_f(&w) }
+        }
+        5 => {
+            let w = gen_weights(&mut ctx.rng, n, wm);
+            let parts = large_parts(ctx, n <= 20_001);
+            Case::Greedy { parts, w: wts(&mut ctx.rng, w) }
+        }
+        6 => {
+            // k-way Kk keeps a k-tuple per element: moderate k, two-way above 70 001 elements
+            let parts = if n > 70_001 { 2 + ctx.rng.usize(2) } else { *ctx.rng.pick(&[2usize, 3, 63, 64, 65]) };
+            Case::Kk { parts, w: gen_weights(&mut ctx.rng, n, wm) }
+        }
+        7 => {
+            // a tolerance the first leaf of the search meets (the complete search is exponential)
+            let wm = *ctx.rng.pick(&["unit", "spread", "small"]);
+            let w = gen_weights(&mut ctx.rng, n, wm);
+            Case::Ckk { tol: *ctx.rng.pick(&[0.05, 0.5]), w }
+        }
+        8 => {
+            // rows of 4096 / 8192 cells (numbered row by row), or sides that are no power of two
+            let dims: Vec<usize> = if dim == 2 {
+                let w = match ctx.rng.usize(3) {
+                    0 if n >= 2 * 4096 => 4096,
+                    1 if n >= 2 * 8192 => 8192,
+                    _ => 200 + ctx.rng.usize(100),
+                };
+                vec![w, (n / w).max(1)]
+            } else {
+                let a = (n as f64).cbrt() as usize;
+                vec![a.max(1), a + 1, (n / (a.max(1) * (a + 1))).max(1)]
+            };
+            let cells: usize = dims.iter().product();
+            let w = gen_weights(&mut ctx.rng, cells, wm);
+            Case::Grid { dims, iter: 3 + ctx.rng.usize(6), w: wts(&mut ctx.rng, w) }
+        }
+        _ => Case::Random { parts: large_parts(ctx, true), n, seed: ctx.rng.below(1 << 40) },
+    }
+}
+
+/// LARGE stream: all twelve partitioners at sizes just above and far above 2^12 … 2^17 that are no
+/// multiples of powers of two, random and block-aligned / pre-sorted inputs, varying pool sizes.
+/// The oracle (linear) is applied in full; the model driver declines above MODEL_MAX_N elements.
+fn large_stream(ctx: &mut Ctx) {
+    let pools = [1usize, 2, 3, 16];
+    let sizes: Vec<usize> = if ctx.quick() {
+        vec![4097, 8193, 16_385 + 37, 20_001, 65_537 + 11, 70_001]
+    } else {
+        vec![4097, 8193, 16_385 + 37, 20_001, 65_537 + 11, 70_001, 131_077, 140_003]
+    };
+    let mut k = ctx.rng.usize(64);
+    let run = |ctx: &mut Ctx, case: Case, ts: &[usize]| {
+        ctx.count(size_class(case.n()));
+        ctx.count("large_cases");
+        emit(ctx, &case, ts);
+    };
+    // every kind at every size (thorough) / every kind at one size, all sizes used (quick)
+    for which in 0..10usize {
+        let picked: Vec<usize> = if ctx.quick() { vec![sizes[(which + k) % sizes.len()]] } else { sizes.clone() };
+        for n in picked {
+            k += 1;
+            let pm = LARGE_POINT_MODES[k % LARGE_POINT_MODES.len()];
+            let case = large_case(ctx, which, n, pm);
+            let ts: Vec<usize> = pools.to_vec();
+            run(ctx, case, &ts);
+        }
+    }
+    // Grid::rcb above 65 536 cells with sides that are no powers of two
+    for (i, dims) in [vec![300usize, 300], vec![45, 45, 45]].into_iter().enumerate() {
+        let cells: usize = dims.iter().product();
+        let wm = *ctx.rng.pick(&WEIGHT_MODES);
+        let w = gen_weights(&mut ctx.rng, cells, wm);
+        let case = Case::Grid { dims, iter: 4 + ctx.rng.usize(5), w: wts(&mut ctx.rng, w) };
+        let _ = i;
+        let ts: Vec<usize> = pools.to_vec();
+        ctx.count("corner:grid-above-65536-cells");
+        run(ctx, case, &ts);
+    }
+    // MultiJagged and Rcb on block-aligned pre-sorted coordinates
+    for (i, n) in [16_385 + 37usize, 65_537 + 11].into_iter().enumerate() {
+        for which in [0usize, 4] {
+            let pm = if (i + which + k) % 2 == 0 { "sorted-blocks-4096" } else { "sorted-blocks-8192" };
+            let case = large_case(ctx, which, n, pm);
+            let ts: Vec<usize> = pools.to_vec();
+            ctx.count("corner:block-aligned-presorted");
+            run(ctx, case, &ts);
+        }
+    }
+    if !ctx.quick() {
+        // ZCurve with a deep order: quadratic, so 8193 points is the largest feasible size
+        for dim in [2usize, 3] {
+            let pts = gen_points_large(&mut ctx.rng, dim, 8193, "uniform");
+            ctx.count("corner:zcurve-deep-order-8193");
+            run(ctx, Case::ZCurve { dim, parts: 257, order: 12, pts }, &[1, 16]);
+        }
+    }
+}
+
+/// CORNER stream: part counts around 64 / 128 / 256 and in the thousands, with more and with fewer
+/// elements than parts; 128 and 256 leaves for the bisections; weights at the edge of the types.
+fn corner_stream(ctx: &mut Ctx, ts: &[usize]) {
+    let mut all_parts: Vec<usize> = PARTS_CORNERS.to_vec();
+    all_parts.extend([1000, 4099]);
+    for &parts in &all_parts {
+        for n in [40usize, 300 + ctx.rng.usize(40)] {
+            let dim = 2 + ctx.rng.usize(2);
+            let pm = *ctx.rng.pick(&POINT_MODES);
+            let wm = *ctx.rng.pick(&WEIGHT_MODES);
+            let pts = gen_points(&mut ctx.rng, dim, n, pm);
+            let w = gen_weights(&mut ctx.rng, n, wm);
+            let cases = [
+                Case::Greedy { parts, w: wts(&mut ctx.rng, w.clone()) },
+                Case::Kk { parts, w: w.clone() },
+                Case::Mj { dim, parts, max_iter: 1 + ctx.rng.usize(4), pts: pts.clone(), w: as_f(&w) },
+                Case::Hilbert { dim, parts, order: if dim == 2 { 16 } else { 10 }, pts: pts.clone(), w: as_f(&w) },
+                Case::ZCurve { dim, parts, order: 1 + ctx.rng.usize(8) as u32, pts: pts.clone() },
+                Case::Random { parts, n, seed: ctx.rng.below(1 << 40) },
+            ];
+            for c in cases {
+                ctx.count(&format!("corner:parts={}", parts));
+                if parts > n {
+                    ctx.count("corner:parts>n");
+                }
+                emit(ctx, &c, ts);
+            }
+        }
+    }
+    for iter in [7usize, 8] {
+        for n in [40usize, 300 + ctx.rng.usize(40)] {
+            let dim = 2 + ctx.rng.usize(2);
+            let pm = *ctx.rng.pick(&POINT_MODES);
+            let wm = *ctx.rng.pick(&WEIGHT_MODES);
+            let pts = gen_points(&mut ctx.rng, dim, n, pm);
+            let w = gen_weights(&mut ctx.rng, n, wm);
+            for rib in [false, true] {
+                ctx.count(&format!("corner:iter_count={}", iter));
+                let c = Case::Bisect { rib, dim, iter, tol: 0.05, pts: pts.clone(), w: wts(&mut ctx.rng, w.clone()) };
+                emit(ctx, &c, ts);
+            }
+            let side = (n as f64).sqrt() as usize;
+            let gw = gen_weights(&mut ctx.rng, side * side, "spread");
+            ctx.count(&format!("corner:iter_count={}", iter));
+            let gw = wts(&mut ctx.rng, gw);
+            emit(ctx, &Case::Grid { dims: vec![side, side], iter, w: gw }, ts);
+        }
+    }
+    // weights at the edge of the types, totals still inside them (the contract's "sums that do not
+    // overflow"): i64 near 2^61 (total 5·2^60 < 2^63), f64 near 2^52 (total 1.75·2^52 < 2^53, exact)
+    let big_i: Vec<i64> = vec![1 << 61, (1 << 61) - 1, (1 << 60) + 5];
+    let big_f: Vec<f64> = vec![(1u64 << 52) as f64, (1u64 << 51) as f64, (1u64 << 50) as f64];
+    for dim in [2usize, 3] {
+        let pts = gen_points(&mut ctx.rng, dim, 3, "uniform");
+        let cases = [
+            Case::Bisect { rib: false, dim, iter: 2, tol: 0.05, pts: pts.clone(), w: Wts::I(big_i.clone()) },
+            Case::Bisect { rib: true, dim, iter: 2, tol: 0.0, pts: pts.clone(), w: Wts::F(big_f.clone()) },
+            Case::Hilbert { dim, parts: 2, order: 8, pts: pts.clone(), w: big_f.clone() },
+            Case::Mj { dim, parts: 3, max_iter: 2, pts: pts.clone(), w: big_f.clone() },
+        ];
+        for c in cases {
+            ctx.count("corner:weights-near-type-range");
+            emit(ctx, &c, ts);
+        }
+    }
+    let cases = [
+        Case::Greedy { parts: 2, w: Wts::I(big_i.clone()) },
+        Case::Greedy { parts: 2, w: Wts::F(big_f.clone()) },
+        Case::Kk { parts: 2, w: big_i.clone() },
+        Case::Kk { parts: 3, w: big_i.clone() },
+        Case::Ckk { tol: 0.5, w: big_i.clone() },
+        Case::Grid { dims: vec![3, 1], iter: 1, w: Wts::I(big_i.clone()) },
+        Case::Grid { dims: vec![1, 3, 1], iter: 2, w: Wts::F(big_f.clone()) },
+    ];
+    for c in cases {
+        ctx.count("corner:weights-near-type-range");
+        emit(ctx, &c, ts);
+    }
+}
+
+/// REUSE stream: the same algorithm value called twice, and an id array reused after a run with
+/// more parts (see the module doc).
+fn reuse_stream(ctx: &mut Ctx) {
+    let rounds = ctx.budget(2, 12);
+    for _ in 0..rounds {
+        for which in 0..10usize {
+            for mode in ["reuse-twice", "reuse-buf"] {
+                let n = gen_n(&mut ctx.rng, 300);
+                let case = random_case(ctx, which, n, false);
+                let ts: &[usize] = if ctx.rng.chance(1, 2) { &[1, 3] } else { &[1, 16] };
+                let op = format!("{} {}", mode, case.format(ts, None));
+                run_op(ctx, &op);
+            }
+        }
+    }
+    // one large case per mode: the history must not show above the block sizes either
+    for (mode, which) in [("reuse-twice", 4usize), ("reuse-buf", 0), ("reuse-buf", 5), ("reuse-twice", 8)] {
+        let case = large_case(ctx, which, 8193 + 37, "sorted-blocks-4096");
+        ctx.count(size_class(case.n()));
+        let op = format!("{} {}", mode, case.format(&[1], None));
+        run_op(ctx, &op);
+    }
 }
 
 /// The small sub-space, enumerated: n ∈ {0,1,2}, every algorithm and dimension, part counts
@@ -1178,6 +1670,12 @@ pub fn generate(ctx: &mut Ctx) {
             one_random_case(ctx, which, n, true, &ts);
         }
     }
+
+    // 3b. LARGE / CORNER / REUSE streams (size-gated and corner-gated code paths, object reuse)
+    large_stream(ctx);
+    let corner_ts: Vec<usize> = vec![1, 2, 3, 16];
+    corner_stream(ctx, &corner_ts);
+    reuse_stream(ctx);
 
     // 4. malformed stream (outside the contract; nothing claimed, but the refusal is recorded and
     //    compared): array length ≠ element count, curve orders above the maximum
